@@ -855,8 +855,10 @@ class Engine:
                 for x in conv[0]:
                     acc = self.binop(ast.Add(), acc, x)
                 return acc
-            if f in (sorted, set, frozenset) and has_sym(conv):
-                raise Unsupported(f'{f.__name__} over symbolic elements')
+            if f is sorted and has_sym(conv):
+                return self.sym_sorted(conv[0], kwargs.get('key'), kwargs.get('reverse', False))
+            if f in (set, frozenset) and has_sym(conv):
+                return GSet(self, conv[0] if conv else [])
             r = f(*conv, **kwargs)
             return list(r) if f in (enumerate, reversed, zip, iter) else r
         if f in (all, any):
@@ -893,6 +895,18 @@ class Engine:
             return SymRange(*args)
         if getattr(f, '__name__', '') == 'cast' and getattr(f, '__module__', '') == 'typing':
             return args[1]
+        if getattr(f, '__name__', '') == 'copy' and getattr(f, '__module__', '') == 'copy':
+            (o,) = args
+            if isinstance(o, Obj):
+                m = self.lookup(o.cls, '__copy__')
+                if m is not None:
+                    return self.call(BoundM(m, o), [], {})
+                c = Obj(o.cls)
+                c.f = dict(o.f)
+                return c
+            if isinstance(o, (list, dict, tuple)):
+                return type(o)(o)
+            raise Unsupported('copy of ' + type(o).__name__)
         if f is getattr:
             try:
                 return self.getattr_(args[0], args[1])
@@ -934,7 +948,25 @@ class Engine:
                 return acc
         raise Unsupported(f'builtin {getattr(f, "__qualname__", f)} on symbolic arguments')
 
+    def sym_sorted(self, items, key=None, reverse=False):
+        """sorted() on a list of concrete length with symbolic elements: stable insertion sort driven by the elements' own
+        `<` (forks on each comparison).  For a strict weak order this is the result of CPython's sort (assumption: the order
+        laws, which are C03's obligations)."""
+        if reverse:
+            raise Unsupported('sorted(reverse=True) on symbolic elements')
+        keyed = [(self.call(key, [x], {}) if key is not None else x, x) for x in items]
+        out = []
+        for kx, x in keyed:
+            pos = len(out)
+            # stable: insert after the last element not greater than x
+            while pos > 0 and self.truth(self.cmp(ast.Lt(), kx, out[pos - 1][0])):
+                pos -= 1
+            out.insert(pos, (kx, x))
+        return [x for _, x in out]
+
     def iterate(self, o):
+        if isinstance(o, GSet):
+            return list(o.items)
         if isinstance(o, Obj):
             it = self.call(self.getattr_(o, '__iter__'), [], {})
             return list(it)
@@ -1892,6 +1924,67 @@ class Engine:
         self.ex(s.orelse, env, g)
         if spec.get('after') and not has_tail:
             spec['after'](self, env, f'{lid}.after')
+
+
+class GSet:
+    """Python set with symbolic elements, of concrete cardinality on each path: elements are deduplicated with their own
+    `==` (forks); assumes __hash__ consistent with __eq__.  Iteration order is the insertion order (CPython's order is
+    hash-dependent: users may only rely on the set of elements)."""
+    __pyvc_symbolic__ = True
+
+    def __init__(self, eng, items=()):
+        self.items = []
+        for x in items:
+            self._add(eng, x)
+
+    def _find(self, eng, x):
+        for i, y in enumerate(self.items):
+            if eng.truth(eng.cmp(ast.Eq(), x, y)):
+                return i
+        return None
+
+    def _add(self, eng, x):
+        if self._find(eng, x) is None:
+            self.items.append(x)
+
+    def __pyvc_len__(self, eng):
+        return len(self.items)
+
+    def __pyvc_truth__(self, eng):
+        return len(self.items) > 0
+
+    def __pyvc_contains__(self, eng, x):
+        return self._find(eng, x) is not None
+
+    def __pyvc_iter__(self, eng):
+        return list(self.items)
+
+    def __pyvc_isinstance__(self, cs):
+        return set in cs
+
+    def __pyvc_attr__(self, eng, name):
+        if name == 'add':
+            return _GM(lambda e, x: self._add(e, x))
+        if name in ('remove', 'discard'):
+            def rm(e, x):
+                i = self._find(e, x)
+                if i is None:
+                    if name == 'remove':
+                        raise RaiseEx(KeyError('element not in set'))
+                    return None
+                del self.items[i]
+            return _GM(rm)
+        raise Unsupported('set.' + name)
+
+
+class _GM:
+    __pyvc_symbolic__ = True
+
+    def __init__(self, f):
+        self.f = f
+
+    def __pyvc_call__(self, eng, args, kwargs):
+        return self.f(eng, *args)
 
 
 class NewType:
